@@ -78,9 +78,11 @@ func (x *fx) binop(op token.Token, a, b *Val, rt types.Type, exec bool) *Val {
 	case isString(t):
 		switch op {
 		case token.EQL, token.NEQ:
-			x.declareFun("str.eq", []string{"Slice", "Slice"}, "Bool")
-			x.assume("(=> (= " + a.S + " " + b.S + ") (str.eq " + a.S + " " + b.S + "))")
-			x.assume("(=> (str.eq " + a.S + " " + b.S + ") (= (s-len " + a.S + ") (s-len " + b.S + ")))")
+			if !x.declSeen["str.eq"] {
+				x.declareFun("str.eq", []string{"Slice", "Slice"}, "Bool")
+				x.assume("(forall ((a Slice)) (! (str.eq a a) :pattern ((str.eq a a))))")
+				x.assume("(forall ((a Slice) (b Slice)) (! (=> (str.eq a b) (= (s-len a) (s-len b))) :pattern ((str.eq a b))))")
+			}
 			r := "(str.eq " + a.S + " " + b.S + ")"
 			if op == token.NEQ {
 				r = not(r)
